@@ -810,6 +810,7 @@ func checkConverterPairs(c *Ctx, r *Rec, fr *fmtRoles, st *scanTables) {
 		{"FormatInt", "10", "ParseInt", "10,64", "signed integers: base 10, 64 bits"},
 		{"FormatUint", "16", "ParseUint", "[,2,:],16,64", "unsigned integers: 0x prefix skipped, base 16, 64 bits"},
 		{"FormatFloat", "71,-1,64", "ParseFloat", "64", "floats: shortest 'G' form of a 64-bit value read back as 64 bits"},
+		{"FormatFloat", "71,-1,64", "ParseComplex", "128", "complex numbers: two 64-bit parts read back as complex128"},
 		{"QuoteRune", "", "Unquote", "", "runes: Go quoting"},
 		{"Quote", "", "Unquote", "", "strings: Go quoting"},
 	}
